@@ -238,6 +238,19 @@ class _OneShot(EventListener):
             pass
 
 
+class _Component(EventListener):
+    """a model component built by construct_model that listens to the simulator (WARMUP / START / STOP / END_REPLICATION): it belongs
+    to ONE replication; a re-initialisation rebuilds the model, so the component of an earlier replication must never hear of a later one"""
+
+    def __init__(self, ctl, gen):
+        self.ctl, self.gen = ctl, gen
+
+    def notify(self, event):
+        if self.ctl.n_constructs != self.gen and not self.ctl.errors:
+            self.ctl.errors.append(f"stale_component: a component built by construct_model of replication {self.gen} was notified of "
+                                   f"{getattr(event.event_type, 'name', event.event_type)} during replication {self.ctl.n_constructs} (its subscription survived the re-initialisation)")
+
+
 NOTIF_TYPES = None
 
 
@@ -420,6 +433,11 @@ class SimCtl:
     def on_construct(self):
         # the model's initial scheduling is split: the first part in construct_model, the rest in a method registered
         # once with add_initial_method (executed by every initialize after construct_model)
+        self.n_constructs = getattr(self, "n_constructs", 0) + 1
+        comp = _Component(self, self.n_constructs)
+        for et in notif_types():
+            if notif_types()[et] in ("WARMUP", "START", "STOP", "END_REPLICATION"):
+                self.sim.add_listener(et, comp)
         ops = self.init_ops or []
         cut = len(ops) if not self.use_initial_method else (len(ops) + 1) // 2
         self.construct_res = self.apply_ops(ops[:cut])
